@@ -347,6 +347,20 @@ func RepopulatePhysicalExpressionFunctions(expr physical.Expression) (physical.E
 						continue descriptorLoop
 					}
 				}
+				if descriptor.TypeFn != nil {
+					// All TypeFn-based overloads of a function share the same (empty) signature,
+					// so choose among them like the typechecker did: by the types of the arguments.
+					argTypes := make([]octosql.Type, len(expr.FunctionCall.Arguments))
+					for j := range expr.FunctionCall.Arguments {
+						argTypes[j] = expr.FunctionCall.Arguments[j].Type
+						if descriptor.Strict {
+							argTypes[j] = octosql.NonNullable(argTypes[j])
+						}
+					}
+					if _, ok := descriptor.TypeFn(argTypes); !ok {
+						continue descriptorLoop
+					}
+				}
 				expr.FunctionCall.FunctionDescriptor.TypeFn = descriptor.TypeFn
 				expr.FunctionCall.FunctionDescriptor.Function = descriptor.Function
 				return expr
